@@ -60,14 +60,21 @@ func GetIPAtIndex(ipNet net.IPNet, index int64) net.IP {
 		ip = *netRange.Last
 		index++
 	}
+	size := net.IPv6len
 	if ip.To4() != nil {
 		val.SetBytes(ip.To4())
+		size = net.IPv4len
 	} else {
 		val.SetBytes(ip)
 	}
 	val.Add(val, big.NewInt(index))
-	if ipNet.Contains(val.Bytes()) {
-		return val.Bytes()
+	if val.Sign() < 0 || val.BitLen() > size*8 {
+		return nil
+	}
+	// big.Int.Bytes drops leading zero bytes, keep the address length
+	result := net.IP(val.FillBytes(make([]byte, size)))
+	if ipNet.Contains(result) {
+		return result
 	}
 	return nil
 }
